@@ -114,6 +114,28 @@ def _finding_region(rule: str, before, after, eqv) -> str | None:
     return rid if r["verdict"] == "unsat" else None
 
 
+_TYPED_SCHEMA = {"t": {**{c: "INT" for c in "xyzabcdefghijklmnouvw"}, **{c: "BOOLEAN" for c in "pqrs"}}}
+
+
+def _typed(tree):
+    """-> the expression qualified against table t and type-annotated, or False when that is not possible."""
+    import sqlglot
+    from sqlglot import exp
+    from sqlglot.optimizer.annotate_types import annotate_types
+    from sqlglot.optimizer.qualify import qualify
+
+    try:
+        q = sqlglot.parse_one("SELECT 1 AS v FROM t")
+        q.expressions[0].set("this", tree.copy())
+        q = qualify(q, schema=_TYPED_SCHEMA, quote_identifiers=False, identify=False)
+        q = annotate_types(q, schema=_TYPED_SCHEMA)
+        e = q.expressions[0].this
+        e.pop()
+        return e
+    except Exception:
+        return False
+
+
 def work(item):
     """One program: run the real simplify / normalize, decide every obligation with z3."""
     fam, sql, opts = item
@@ -160,18 +182,28 @@ def work(item):
         out["obligations"].append(rec)
         return rec
 
+    typed_tree = None
     for cfg in opts:
         label = cfg["label"]
         _STEPS.clear()
+        base_tree = tree
+        if cfg.get("typed"):
+            # the typed variant: the expression as a projection over a table whose columns are declared (x.. INT, p.. BOOLEAN),
+            # qualified and annotated before simplify runs (type-dependent rules: NOT NOT p -> p, no `AND TRUE` padding, ...)
+            if typed_tree is None:
+                typed_tree = _typed(tree)
+            if typed_tree is False:
+                continue
+            base_tree = typed_tree
         try:
-            res = simplify(tree.copy(), constant_propagation=cfg.get("cp", False), coalesce_simplification=cfg.get("cs", False),
+            res = simplify(base_tree.copy(), constant_propagation=cfg.get("cp", False), coalesce_simplification=cfg.get("cs", False),
                            dialect=cfg.get("dialect"))
         except Exception as ex:
             out["obligations"].append({"kind": "simplify", "rule": label, "before": sql, "after": None, "verdict": "raised",
                                        "why": type(ex).__name__ + ": " + str(ex)[:120]})
             continue
         steps = list(_STEPS)
-        e2e = decide("simplify", label, tree, res)
+        e2e = decide("simplify", label, base_tree, res)
         seen = set()
         for name, b, a in steps:
             key = (name, b.sql(), a.sql())
@@ -203,7 +235,7 @@ def configs():
     """Option / dialect-flag settings, with the dialects chosen by reading the flags from the classes at run time."""
     from sqlglot.dialects.dialect import Dialect, Dialects
 
-    cfgs = [{"label": "default"}, {"label": "cp+cs", "cp": True, "cs": True}]
+    cfgs = [{"label": "default"}, {"label": "cp+cs", "cp": True, "cs": True}, {"label": "typed", "typed": True}, {"label": "typed+cp+cs", "typed": True, "cp": True, "cs": True}]
     want = {("SAFE_TO_ELIMINATE_DOUBLE_NEGATION", False): None, ("COALESCE_COMPARISON_NON_STANDARD", True): None}
     for d in Dialects:
         if not d.value:
@@ -373,7 +405,7 @@ def main(argv=None) -> int:
                               "sqlglot.optimizer.normalize.normalize (CNF, DNF)"],
         "bounds": {"columns": "x y z .. unbounded integers, p q r booleans, each possibly NULL (all assignments, decided by z3)",
                    "programs": "bounded grammar (see engines/sqlsmt/gen_scalar.py) + every input of simplify.sql / normalize.sql in the fragment",
-                   "outside": "dates/intervals, strings/CONCAT, division, floats, typed (annotated) runs, constants outside {-1,0,1,2} except fixtures"},
+                   "outside": "dates/intervals, strings/CONCAT, division, floats, constants outside {-1,0,1,2} except fixtures"},
         "repo_head": repo_head() + ("+dirty" if repo_dirty() else ""),
         "harness_errors": harness_errors,
     }
